@@ -1,12 +1,12 @@
 /-
-C15 — "every database and every policy is stored under its own name" is an invariant of the
+Catalogue model — "every database and every policy is stored under its own name" is an invariant of the
 catalogue model (after the re-keying fix of UpdateRetentionPolicy). `Data.Unmarshal` rebuilds
 the two maps from the names, so this is what makes snapshot + restore the identity.
 -/
 import OG.Meta.Lemmas
 
-namespace OG.C15
-open OG.Meta
+namespace OG.Meta
+
 
 def RPsOK (db : DB) : Prop := ∀ kr ∈ db.rps, kr.2.name = kr.1
 
@@ -94,4 +94,4 @@ theorem indexGroupFor_facts (d : Data) (rp : RP) (t : Int) (e : Nat) :
     · exact createIndexGroup_facts d rp t e
   · exact createIndexGroup_facts d rp t e
 
-end OG.C15
+end OG.Meta
